@@ -467,7 +467,8 @@ class Executor:
             rec["id"] = i
             rec["ev"] = {"ts": e["ts"], "dur": e["dur"], "d": e["d"]}
             try:
-                ds[rb].replace(i, self.mkev(e))
+                # the event object handed over may carry an id of its own (stale or foreign): only the id argument addresses
+                ds[rb].replace(i, self.mkev(e, id=self.rnd.choice([None, None, i, 987655, i + 1])))
             except Exception as ex:
                 out = type(ex).__name__
         elif o == "replace_last":
